@@ -203,6 +203,17 @@ def extract(repo, failures):
         i_chk = cil.find("check_queues_empty()", i_for)
         d["checksQueuesPerLogger"] = 0 <= i_for < i_valid < i_chk and cil.count("check_queues_empty()") == 1
 
+    # ---- C07 (drain): shape of _exit — loop until the emptiness check says yes; then report, flush, break; clean-ups after
+    if ex:
+        exc = re.sub(r"\s+", " ", ex)
+        d["exitDrainShape"] = bool(
+            re.search(r"while \(true\) \{ bool const queues_and_events_empty = \(!_options\.wait_for_queues_to_empty_before_exit\) \|\| "
+                      r"_check_frontend_queues_and_cached_transit_events_empty\(\); if \(queues_and_events_empty\) \{ "
+                      r"_check_failure_counter\([^;]*\); _flush_and_run_active_sinks\([^;]*\); break; \}", exc)
+            and re.search(r"\} _cleanup_invalidated_thread_contexts\(\); _cleanup_invalidated_loggers\(\); ?$", exc.strip()))
+    else:
+        d["exitDrainShape"] = False
+
     L = []
     L.append("/-- facts of the backend worker / frontend the backend model is parametric in -/")
 
